@@ -4,11 +4,11 @@
 package core
 
 import (
-	"hash/fnv"
 	"encoding/binary"
 	"encoding/hex"
 	"encoding/json"
 	"fmt"
+	"hash/fnv"
 	"os"
 	"regexp"
 	"runtime"
@@ -65,6 +65,8 @@ type Check struct {
 	// Run enumerates the check's whole space; it must call rc.Take() once per case in a
 	// deterministic order and only execute cases for which Take returned true.
 	Run func(rc *RunCtx)
+	// RacePass: also run the auxiliary free-running -race pass (bin/vrace <ID>).
+	RacePass bool
 	// Single-process checks (explorers owning goroutine scheduling) set NoShard.
 	NoShard bool
 	// Assumptions listed in the evidence file.
@@ -75,7 +77,7 @@ type Check struct {
 
 var registry = map[string]*Check{}
 
-func Register(c *Check) { registry[c.ID] = c }
+func Register(c *Check)       { registry[c.ID] = c }
 func Lookup(id string) *Check { return registry[id] }
 func IDs() []string {
 	var out []string
@@ -88,31 +90,31 @@ func IDs() []string {
 
 // WorkerResult is what a worker process reports back (JSON on stdout, last line).
 type WorkerResult struct {
-	Evaluations int64            `json:"evaluations"`
-	Nontrivial  int64            `json:"nontrivial"`
-	NontrivKeys []string         `json:"nontriv_keys,omitempty"`
-	Outcomes    map[string]int64 `json:"outcomes"`
-	OutcomesCap bool             `json:"outcomes_capped"`
-	Samples     []interface{}    `json:"samples"`
-	Deviations  []Deviation      `json:"deviations"` // not covered by a known finding
-	DevCount    int64            `json:"dev_count"`
-	DevBySig    map[string]int64 `json:"dev_by_sig"`
-	Known       map[string]int64 `json:"known"`          // finding id -> matching cases
-	KnownEx     map[string]Deviation `json:"known_ex"`   // one example per finding
-	Counters    map[string]int64 `json:"counters"`
-	Notes       map[string]string `json:"notes,omitempty"`
-	Complete    bool             `json:"complete"`
-	LastIndex   int64            `json:"last_index"`
-	Final       bool             `json:"final"`
-	CapsHit     []string         `json:"caps_hit,omitempty"`
+	Evaluations int64                `json:"evaluations"`
+	Nontrivial  int64                `json:"nontrivial"`
+	NontrivKeys []string             `json:"nontriv_keys,omitempty"`
+	Outcomes    map[string]int64     `json:"outcomes"`
+	OutcomesCap bool                 `json:"outcomes_capped"`
+	Samples     []interface{}        `json:"samples"`
+	Deviations  []Deviation          `json:"deviations"` // not covered by a known finding
+	DevCount    int64                `json:"dev_count"`
+	DevBySig    map[string]int64     `json:"dev_by_sig"`
+	Known       map[string]int64     `json:"known"`    // finding id -> matching cases
+	KnownEx     map[string]Deviation `json:"known_ex"` // one example per finding
+	Counters    map[string]int64     `json:"counters"`
+	Notes       map[string]string    `json:"notes,omitempty"`
+	Complete    bool                 `json:"complete"`
+	LastIndex   int64                `json:"last_index"`
+	Final       bool                 `json:"final"`
+	CapsHit     []string             `json:"caps_hit,omitempty"`
 }
 
 const (
-	maxOutcomes      = 20000
-	maxDevPerSig     = 40
-	maxDevTotal      = 4000
-	maxSamples       = 6
-	maxNontrivKeys   = 250000
+	maxOutcomes    = 20000
+	maxDevPerSig   = 40
+	maxDevTotal    = 4000
+	maxSamples     = 6
+	maxNontrivKeys = 250000
 )
 
 // RunCtx is handed to Check.Run inside a worker.
@@ -128,18 +130,18 @@ type RunCtx struct {
 	Part     string
 	Findings *FindingsFile
 
-	idx      int64
-	progress *os.File
-	res      WorkerResult
-	nontriv  map[[8]byte]struct{}
-	devPerSig map[string]int
-	expired  bool
-	pbuf     [8]byte
-	pmap     []byte
-	skip     map[int64]bool
-	lastCkpt time.Time
+	idx        int64
+	progress   *os.File
+	res        WorkerResult
+	nontriv    map[[8]byte]struct{}
+	devPerSig  map[string]int
+	expired    bool
+	pbuf       [8]byte
+	pmap       []byte
+	skip       map[int64]bool
+	lastCkpt   time.Time
 	ResultPath string
-	untracked int64
+	untracked  int64
 }
 
 func NewRunCtx(prop, tier string, shard, nshards int, deadline time.Time) *RunCtx {
@@ -263,8 +265,16 @@ func (rc *RunCtx) Eval(outcome string, nontrivialKey string) {
 	}
 }
 
-func (rc *RunCtx) Count(name string, n int64) { rc.res.Counters[name] += n }
-func (rc *RunCtx) Note(name, v string)       { rc.res.Notes[name] = v }
+func (rc *RunCtx) Count(name string, n int64) {
+	if strings.HasPrefix(name, "max_") {
+		if n > rc.res.Counters[name] {
+			rc.res.Counters[name] = n
+		}
+		return
+	}
+	rc.res.Counters[name] += n
+}
+func (rc *RunCtx) Note(name, v string) { rc.res.Notes[name] = v }
 func (rc *RunCtx) Cap(what string) {
 	rc.res.Complete = false
 	rc.res.CapsHit = append(rc.res.CapsHit, what)
